@@ -246,6 +246,7 @@ def run(ctx: Ctx):
     # ---- S6 chunk_by_slices index arithmetic == per-sequence pad-and-slice specification -------------------------
     _slice_arithmetic(ctx, cbs, gpb)
     _pad_arithmetic(ctx, pv, gpb)
+    _mask_broadcast_before_counting(ctx)
     # ---- S7 handler / raiser agreement around the validation helpers -----------------------------------------------
     from rules.excmatch import ArgcheckRaises, mismatched_handlers
     acr = ArgcheckRaises(pkg)
@@ -643,6 +644,30 @@ def _pad_arithmetic(ctx: Ctx, pv, gpb):
     col.floor("pad_arith_terms", nchecked, 12)
 
 
+def _mask_broadcast_before_counting(ctx: Ctx):
+    """S8: pad_masked_sequence documents that the mask broadcasts with the first two dimensions of x. The per-row counts
+    (`mask.sum(1)`) and the selection (`x.masked_select(mask...)`) must therefore read the *same*, already broadcast mask;
+    counting on the un-broadcast version gives one count for a (1, N) mask where N are needed, and masked_scatter then
+    shifts data across rows."""
+    from sa.defuse import ReachingDefs
+    col, pkg = ctx.col, ctx.pkg
+    f = pkg.func(f"{MOD}::pad_masked_sequence")
+    rel = f.module.relname
+    rd = ReachingDefs(f.node)
+    mname = f.params[1].name
+    sums = [c for c in own_calls(f.node) if isinstance(c.func, ast.Attribute) and c.func.attr == "sum"
+            and isinstance(c.func.value, ast.Name) and c.func.value.id == mname]
+    if len(sums) != 1:
+        raise AnalysisError("C09: pad_masked_sequence does not count the mask once")
+    der = rd.derives(sums[0].func.value)
+    broadcast = any(isinstance(c.func, ast.Attribute) and c.func.attr in ("expand", "expand_as", "broadcast_to") or
+                    call_name(c) in ("torch.broadcast_to", "torch.broadcast_tensors") for c in der.calls())
+    col.ob("G16", "S8", f"{rel}::pad_masked_sequence::counts-read-the-broadcast-mask", broadcast,
+           f"`{u(sums[0])}` counts the mask before it is expanded to x's first two dimensions (the selection uses the expanded "
+           f"mask): for a mask of shape (1, N) or (T, 1) - which the docstring allows - the lengths have the wrong shape / value "
+           f"and masked_scatter moves elements into other rows", rel, sums[0].lineno)
+
+
 def _mutants():
     from selftest.mutate import Mutant as M
     P = "_pad.py"
@@ -682,6 +707,7 @@ def _mutants():
         M("twin:new-lens-spelled-out", P, "right_mask = (new_lens.unsqueeze(1) > arange[:Tp])", "right_mask = ((lens + pad[0] + pad[1]).unsqueeze(1) > arange[:Tp])", "", twin=True),
         M("extent-forgets-right-pad", P, "Tp = int(torch.max(torch.max(left_pad.max(), chunk_lens.max()), right_pad.max()).item())", "Tp = int(torch.max(left_pad.max(), chunk_lens.max()).item())", "output-extent-covers-every-scatter"),
         M("empty-time-axis-short-circuits", P, "if not N:\n        return (x.new_empty(x.shape), slices.new_zeros((N,)))", "if not N * T:\n        return (x.new_empty(x.shape), slices.new_zeros((N,)))", "early-return-reports-the-requested-lengths"),
+        M("counts-on-unbroadcast-mask", P, "mask = mask.expand(x.shape[:2])\n", "", "counts-read-the-broadcast-mask"),
         M("twin:rename-left-max", P, "left_max", "lmax", "", -1, twin=True),
     ]
 
